@@ -95,6 +95,14 @@ def fshift_experiment(n, ntr, axis, dt, D, calls, form=0, basis=True, seed=0):
     obs = [{"scalar": c["scalar"], "s": list(c["s"]), "oshape": list(shape), "odtype": dt, "untouched": True,
             "maps": [], "md": [0] * nt, "q": ["none"] * nt} for c in calls]
     sargs = [_svalue(c, D, form) for c in calls]
+    # "each trace can receive its own shift": the layout of the shift array is the caller's (flat, one column / one row matching the
+    # data, the other orientation, a one-element array for a single trace) - the result has the shape of the data whatever it is
+    for ic, sa in enumerate(sargs):
+        lay = (form // 2 + ic) % 3
+        if isinstance(sa, np.ndarray) and ntr > 0 and lay:
+            sargs[ic] = sa.reshape((1, -1) if (axis == 0) == (lay == 1) else (-1, 1))
+        elif not isinstance(sa, np.ndarray) and ntr == 0 and form >= 4:
+            sargs[ic] = np.array([float(sa)])
 
     def run(arr):
         outs = []
@@ -316,6 +324,10 @@ def replay_roll_case(c, dt, seed=0):
     shape = tuple(c["shape"])
     x = rng.permutation(int(np.prod(shape))).reshape(shape).astype(NPDT[dt]) + 1
     s = int(c["s"][0]) if c["scalar"] else np.array(c["s"], dtype=float)
+    if not c["scalar"] and len(shape) == 2 and seed % 3:
+        s = s.reshape((1, -1) if (c["axis"] % 2 == 0) == (seed % 3 == 1) else (-1, 1))     # column / row layouts of the shift vector
+    elif c["scalar"] and len(shape) == 1 and seed % 3 == 1:
+        s = np.array([float(s)])
     keep = x.copy()
     try:
         y = fshift(x, s, axis=c["axis"])
